@@ -246,6 +246,15 @@ def search_programs(ctx: Ctx, pl: cxx.Pipeline) -> SearchResult:
 			res.findings.append(Finding(key=key, what=gen_prog.PROBE_WHAT[key] + f" [probe program: {r['status']}]",
 				replay={'key': key, 'program': d, 'result': _short(r), 'emitted': r.get('emitted')}))
 
+	# 2b'. idiom programs: small families with randomised operands that must agree (callable captures, list-fill declarations)
+	idioms = [gen_prog.idiom_program(random.Random(rng.random()), key) for key in sorted(gen_prog.IDIOM_WHAT) for _ in range(ctx.scale(3, 20))]
+	for (key, d), r in zip(idioms, pl.check_many([d for _, d in idioms], per_unit=3)):
+		res.cases += 1
+		hist[f"{key}:{r['status']}"] += 1
+		if r['status'] in ('mismatch', 'rejected', 'cxx-rejected'):
+			res.findings.append(Finding(key=key, what=gen_prog.IDIOM_WHAT[key] + f" [idiom program: {r['status']}]",
+				replay={'key': key, 'program': d, 'result': _short(r), 'emitted': r.get('emitted')}))
+
 	# 2c. forced operator pairs: every well-typed parent x child pair of the precedence ladder (unary x binary, binary x binary x side,
 	# binary x unary) as its own tiny function, called on arguments on which the two groupings of the operator sequence differ
 	pcases = gen_prog.pair_cases(random.Random(rng.random()))
